@@ -213,6 +213,7 @@ def check_c14(tier):
     sweep(V, tier, ['root-auto', 'peer-manual-ser'], 200 if tier == 'quick' else 1700)
     sweep(V, tier, ['root-auto-hist'], 150 if tier == 'quick' else 600, ns=[1, 2, 3, 5, 8, 9, 17, 64, 129, 255] if tier == 'quick' else [1, 2, 3, 4, 5, 6, 7, 8, 9, 16, 17, 31, 33, 64, 65, 127, 128, 129, 200, 254, 255])
     ctor_forms(V)
+    vc.run_specs(V, [S('T1', 1, M_T, O_TALL), S('P5', 1, M_P0, O_P), S('I1', 1, M_T, O_T), S('T2', 1, M_TP, O_TALL), S('P5h', 0, M_P0, O_PALL)], tier, budget=60 if tier == 'quick' else 300)
     # keep only what C14 judges: drop serialization predicates reported by the shared harness
     V.violations = [v for v in V.violations if not re.match(r'(save|load|buffer)', v['pred'])]
     return V.finish(rule='one machine per state count N and root flavour; every ordered pair (j,k) of states is driven with immediateChangeTo and the deliveries compared with the expected four callbacks; stateId<T>() checked by static_assert for every state')
@@ -257,6 +258,11 @@ def check_c13(tier):
     for v in ('cxx11', 'cxx20', 'clang-cxx11', 'debug'):
         b = build('seqx_bitstream.cpp', [], variant=v, access=False, extra=['-w'])
         add_seqx(V, run_harness(b, ['--workers=%d' % NCPU, '--skip-bitwidth'] + (['--thorough'] if tier == 'thorough' else [])), 'bitstream/' + v, dict(source='seqx_bitstream.cpp', defs=[], variant=v, access=False, extra=['-w'], args=['--skip-bitwidth']))
+    # "the bit width derived for a state count always suffices": the serialization sweep's compile-time facts (SERIAL_BITS == 1 + bitWidth(N))
+    # and its saves inside guarded buffers, for the state counts around the powers of two
+    before = len(V.violations)
+    sweep(V, tier, ['peer-manual-ser'], 150 if tier == 'quick' else 600, ns=[1, 2, 3, 4, 8, 16, 32, 63, 64, 65, 127, 128, 129, 255] if tier == 'quick' else [1, 2, 3, 4, 5, 7, 8, 9, 15, 16, 17, 31, 32, 33, 63, 64, 65, 127, 128, 129, 200, 254, 255])
+    V.violations = V.violations[:before] + [v for v in V.violations[before:] if re.match(r'(save|load|buffer|static)', v['pred'])]
     return V.finish(rule='every cursor x width x value (see assumptions) x three prefix fillings; every pair of consecutive fields at the 8 byte offsets; closure over all write sequences for small capacities; every capacity 1..255; bitWidth for all 2^32 arguments. "states" counts distinct (cursor, content) stream states of the closures, "transitions" every verified write/argument')
 
 # =========================================================================== C20
@@ -324,16 +330,17 @@ def check_c18(tier):
     V = Verdict('C18', tier)
     V.assumptions = ['histories respect the asserted preconditions of the library (DESIGN.md 4.3)', 'sanitizers: g++ 12 and clang 14 ASan+UBSan (no recovery), clang 14 MSan with the instance storage poisoned before construction; allocation entry points are wrapped/replaced and counted while a library call is on the stack']
     # (config, deviation bound plain build, deviation bound sanitizer builds, menus, operations)
-    base = [('P8c', 0, 0, M_P0, og('CORE', 'PLAN', 'REPORT'), ('asan-clang',)), ('T9a', 1, 1, M_TP, O_T | og('PAYLOAD')), ('T9b', 1, 1, M_TP, O_T | og('PAYLOAD', 'SERIAL')), ('P7a', 1, 0, M_P0 | mf('PAYLOAD'), O_P | og('PAYLOAD')), ('P7b', 0, 0, M_P0 | mf('PAYLOAD'), O_P | og('PAYLOAD'), ('asan-gcc', 'msan')), ('T2', 1, 1, M_TP, O_TALL), ('T5', 1, 1, M_TP, O_TALL), ('T6', 1, 1, M_TP, O_TALL), ('P5', 1, 1, M_P, O_P | og('PLAN_REMOVE', 'COPY', 'DESTROY', 'REACT')), ('P7', 1, 0, M_P0 | mf('PAYLOAD'), O_P | og('PAYLOAD')), ('P3', 2, 1, M_P, O_PALL), ('T3', 2, 2, M_T, O_TALL), ('A2', 1, 0, mf('PHASE_REQ', 'GUARD_CANCEL', 'REPORT', 'PLAN_EDIT', 'PAYLOAD'), og('CORE', 'PLAN', 'REPORT', 'MANUAL', 'SERIAL', 'REPLAY', 'COPY', 'DESTROY', 'PAYLOAD', 'LOG'))]
-    if tier == 'thorough': base = [b for b in base if b[0] in ('P8c', 'A2', 'T9a', 'T9b', 'P7a', 'P7b')] + [('T2', 2, 2, M_TP, O_TALL), ('T5', 2, 1, M_TP, O_TALL), ('T6', 2, 2, M_TP, O_TALL), ('T1', 2, 2, M_T, O_TALL), ('P5', 2, 1, M_PG, O_PALL), ('P7', 1, 1, M_P | mf('PAYLOAD'), O_PALL), ('P3', 3, 2, M_P, O_PALL), ('T3', 3, 3, M_T, O_TALL), ('P2', 1, 0, M_P0 | mf('PAYLOAD'), O_P | og('PAYLOAD', 'MANUAL', 'REPLAY')), ('T4', 1, 1, M_T, O_TALL), ('I1', 1, 1, M_T, O_T), ('P4', 0, 0, M_P0 | mf('PAYLOAD'), O_P | og('PAYLOAD'))]
+    base = [('P8c', 0, 0, M_P0, og('CORE', 'PLAN', 'REPORT'), ('asan-clang',)), ('N8p', 0, 0, M_P0, O_P, ('asan-gcc', 'asan-clang'), ['--ids=0,7']), ('T1', 1, 1, M_T, O_T, ('msan', 'asan-gcc'), ['--copy', '--copy-move']), ('P5', 0, 0, M_P0, O_P, ('msan',), ['--copy', '--copy-move']), ('T9a', 1, 1, M_TP, O_T | og('PAYLOAD')), ('T9b', 1, 1, M_TP, O_T | og('PAYLOAD', 'SERIAL')), ('P7a', 1, 0, M_P0 | mf('PAYLOAD'), O_P | og('PAYLOAD')), ('P7b', 0, 0, M_P0 | mf('PAYLOAD'), O_P | og('PAYLOAD'), ('asan-gcc', 'msan')), ('T2', 1, 1, M_TP, O_TALL), ('T5', 1, 1, M_TP, O_TALL), ('T6', 1, 1, M_TP, O_TALL), ('P5', 1, 1, M_P, O_P | og('PLAN_REMOVE', 'COPY', 'DESTROY', 'REACT')), ('P7', 1, 0, M_P0 | mf('PAYLOAD'), O_P | og('PAYLOAD')), ('P3', 2, 1, M_P, O_PALL), ('T3', 2, 2, M_T, O_TALL), ('A2', 1, 0, mf('PHASE_REQ', 'GUARD_CANCEL', 'REPORT', 'PLAN_EDIT', 'PAYLOAD'), og('CORE', 'PLAN', 'REPORT', 'MANUAL', 'SERIAL', 'REPLAY', 'COPY', 'DESTROY', 'PAYLOAD', 'LOG'))]
+    if tier == 'thorough': base = [b for b in base if b[0] in ('P8c', 'A2', 'T9a', 'T9b', 'P7a', 'P7b', 'N8p') or len(b) > 6] + [('T2', 2, 2, M_TP, O_TALL), ('T5', 2, 1, M_TP, O_TALL), ('T6', 2, 2, M_TP, O_TALL), ('T1', 2, 2, M_T, O_TALL), ('P5', 2, 1, M_PG, O_PALL), ('P7', 1, 1, M_P | mf('PAYLOAD'), O_PALL), ('P3', 3, 2, M_P, O_PALL), ('T3', 3, 3, M_T, O_TALL), ('P2', 1, 0, M_P0 | mf('PAYLOAD'), O_P | og('PAYLOAD', 'MANUAL', 'REPLAY')), ('T4', 1, 1, M_T, O_TALL), ('I1', 1, 1, M_T, O_T), ('P4', 0, 0, M_P0 | mf('PAYLOAD'), O_P | og('PAYLOAD'))]
     specs = []
     for bt in base:
         (c, d, ds, m, o) = bt[:5]; only = bt[5] if len(bt) > 5 else None      # `only`: a large configuration that runs under the named sanitizer builds only
-        specs.append(S(c, d, m, o, variant='plain', flags=['--copy', '--replica'], props=['C18']))     # alignment + allocation monitors, full speed
+        fl = bt[6] if len(bt) > 6 else ['--copy', '--replica']
+        specs.append(S(c, d, m, o, variant='plain', flags=fl, props=['C18']))     # alignment + allocation monitors, full speed
         for v in (only or SAN):
-            specs.append(S(c, ds, m, o, variant=v, flags=['--copy', '--replica'], props=['C18'], share=3 if v == 'msan' else 1))
+            specs.append(S(c, ds, m, o, variant=v, flags=fl, props=['C18'], share=3 if v == 'msan' else 1))
         if (c in ('T2', 'P3', 'P5', 'T3') or tier == 'thorough') and not only:
-            specs.append(S(c, min(ds, 1) if tier == 'quick' else ds, m, o, variant=SAN_O0, flags=['--copy', '--replica'], props=['C18'], share=2))
+            specs.append(S(c, min(ds, 1) if tier == 'quick' else ds, m, o, variant=SAN_O0, flags=fl, props=['C18'], share=2))
     vc.run_specs(V, specs, tier, budget=200 if tier == 'quick' else 3600)
     # containers and the extreme machine sizes under ASan+UBSan
     jobs = []
@@ -458,6 +465,44 @@ def check_c19(tier):
                 V.add_violation('unused-feature-changes-behaviour', 'explorer: a program that uses [%s] behaves differently when further, unused features are enabled: %s differ from [%s] (digests %s)' % (' '.join(U) or 'no feature', [(' '.join(k[0]), k[1]) for k in odd], ' '.join(U), sorted(set(nd.values()))), dict(kind='differential', base=base, uses=list(U), odd=[[list(k[0]), k[1]] for k in odd]))
             else:
                 V.extra.setdefault('explorer_feature_differentials', []).append({'base': base, 'program_uses': list(U), 'builds_compared': len(nd), 'tuples': list(nd.values())[0][1] if nd else 0})
+    # C++20: a machine's whole life cycle can be evaluated in a constant expression; compiling in a feature the program does not use
+    # must not take that away (builds whose machine holds a std::type_index are not literal types at all and are left out)
+    def cx_one(args):
+        combo, cxx, h = args
+        src = os.path.join(PROBES, 'probe_constexpr.cpp')
+        key = hashlib.sha1(json.dumps([repo_fingerprint(), open(src).read(), combo, cxx, h]).encode()).hexdigest()[:18]
+        out = os.path.join(BUILD, 'cx_' + key)
+        cmd = [cxx, '-std=c++20', '-I' + os.path.join(REPO, 'include'), '-I' + os.path.join(REPO, 'development')] + ['-D%s=' % x for x in combo] + (['-DVX_DEV_HEADER'] if h == 'dev' else []) + [src, '-o', out]
+        p = subprocess.run(cmd, stdout=subprocess.PIPE, stderr=subprocess.STDOUT, text=True)
+        if p.returncode != 0: return (args, 'does not compile: ' + ([l for l in p.stdout.splitlines() if 'error' in l] or [''])[0][:300], ' '.join(cmd))
+        try: q = subprocess.run([out], stdout=subprocess.PIPE, stderr=subprocess.STDOUT, text=True, timeout=60); res = q.stdout.strip()
+        except subprocess.TimeoutExpired: res = 'timeout'
+        try: os.unlink(out)
+        except OSError: pass
+        return (args, res, ' '.join(cmd))
+    literal = [c for c in combos[:256] if 'FFSM2_DISABLE_TYPEINDEX' in c or not (set(c) & {'FFSM2_ENABLE_LOG_INTERFACE', 'FFSM2_ENABLE_VERBOSE_DEBUG_LOG', 'FFSM2_ENABLE_STRUCTURE_REPORT', 'FFSM2_ENABLE_DEBUG_STATE_TYPE'})]
+    if tier == 'quick': literal = [c for c in literal if not (set(c) & {'FFSM2_ENABLE_STRUCTURE_REPORT', 'FFSM2_ENABLE_DEBUG_STATE_TYPE'}) or len(c) >= 7]
+    cxjobs = [(c, 'g++', 'shipped') for c in literal] + [(c, 'clang++', 'shipped') for c in literal if len(c) <= 1 or len(c) >= 7] + ([(c, 'g++', 'dev') for c in literal if len(c) <= 1] if not headers_identical() or tier == 'thorough' else [])
+    with ThreadPoolExecutor(max_workers=NCPU) as ex: cxres = list(ex.map(cx_one, cxjobs))
+    V.transitions += len(cxres); V.validated += len(cxres)
+    base_cx = {(cxx, h): r for (c, cxx, h), r, cmd in cxres if c == ()}
+    oddcx = [((c, cxx, h), r, cmd) for (c, cxx, h), r, cmd in cxres if r != base_cx.get((cxx, h), base_cx.get(('g++', 'shipped')))]
+    if oddcx:
+        (c, cxx, h), r, cmd = oddcx[0]
+        V.add_violation('unused-feature-changes-constant-evaluation', 'C++20 constant evaluation of a machine life cycle: [%s] %s %s gives "%s", without any switch "%s" (%d of %d builds differ)' % (' '.join(c), cxx, h, r[:200], base_cx.get((cxx, h), '?'), len(oddcx), len(cxres)), dict(kind='probe', source='probe_constexpr.cpp', cmd=cmd, output=r), count=len(oddcx))
+    else:
+        V.extra['constexpr_probe'] = {'builds': len(cxres), 'result': sorted(set(r for _, r, _ in cxres))}
+    # the development header behaves like the single header: full edge digests of explorations (incl. injections) through both
+    hd = {}
+    for cname, d_, m_, o_ in (('T1', 1, M_T, O_T), ('I1', 1, M_T, O_T), ('I5', 1, M_T, O_T), ('P5', 1, M_P0, O_P), ('T2', 1, M_TP, O_TALL)):
+        for h in ('shipped', 'dev'):
+            b = build('fsmx.cpp', CONFIGS[cname], header=h)
+            run = run_fsmx(b, '%s/%s/header-diff' % (cname, h), ['C19'], d_, m_, o_, workers=NCPU, deadline=100, samples=0)
+            rs = dict(S(cname, d_, m_, o_)); rs['header'] = h
+            V.add_fsmx(run, cname, CONFIGS[cname], rs)
+            if run['result'] and run['result']['exhaustive']: hd[(cname, h)] = (run['result']['digest'], run['result']['states'], run['result']['transitions'])
+        if (cname, 'shipped') in hd and (cname, 'dev') in hd and hd[(cname, 'shipped')] != hd[(cname, 'dev')]:
+            V.add_violation('header-variants-behave-differently', 'configuration %s explored through include/ffsm2/machine.hpp and through development/ffsm2/machine_dev.hpp: (digest, states, edges) %s vs %s' % (cname, hd[(cname, 'shipped')], hd[(cname, 'dev')]), dict(kind='differential', config=cname))
     # large machines: a feature that is compiled in but not used (PLANS, HISTORY) must leave the dispatch sweep and the user data kept in
     # the state objects untouched (the sweeps with these switches also use the feature afterwards; any deviation is reported here)
     before = len(V.violations)
